@@ -720,6 +720,10 @@ func (gen *Generator) GenerateInclude(args []Sexp) error {
 	var err error
 	var exps []Sexp
 
+	// include is one expression: the value of the last file that has one, nil
+	// when there is none. The values of the files before it are popped.
+	haveValue := false
+
 	var sourceItem func(item Sexp) error
 
 	sourceItem = func(item Sexp) error {
@@ -744,10 +748,23 @@ func (gen *Generator) GenerateInclude(args []Sexp) error {
 			if err != nil {
 				return err
 			}
+			exps = gen.env.FilterArray(exps, RemoveCommentsFilter)
+			exps = gen.env.FilterArray(exps, RemoveEndsFilter)
 
+			before := len(gen.instructions)
+			if haveValue {
+				gen.AddInstruction(PopInstr(0))
+			}
+			mark := len(gen.instructions)
 			err = gen.GenerateBegin(exps)
 			if err != nil {
 				return err
+			}
+			if len(gen.instructions) == mark {
+				// nothing in this file: keep the value we have
+				gen.instructions = gen.instructions[:before]
+			} else {
+				haveValue = true
 			}
 
 		default:
@@ -762,6 +779,9 @@ func (gen *Generator) GenerateInclude(args []Sexp) error {
 		if err != nil {
 			return err
 		}
+	}
+	if !haveValue {
+		gen.AddInstruction(PushInstr{SexpNull})
 	}
 
 	return nil
